@@ -149,6 +149,8 @@ def quadratic_spline(
         # Cancellation-free form of (-b + sqrt(b^2 - 4ac)) / (2a); also valid when a == 0.
         # The discriminant is the squared density at the root; rounding must not make it negative.
         alpha = (-2 * c_) / (b + torch.sqrt(torch.clamp(b.pow(2) - 4 * a * c_, min=0)))
+        # alpha is a position within the bin; rounding must not push it (and the density below) outside.
+        alpha = torch.clamp(alpha, 0, 1)
         outputs = alpha * input_bin_widths + input_bin_locations
         outputs = torch.clamp(outputs, 0, 1)
         logabsdet = -torch.log(
